@@ -169,6 +169,17 @@ struct SlotBase {
     virtual SlotBase *roundtrip(bool text, const std::string &kind, std::string &out) const { return nullptr; }
 };
 
+
+// label tokens: integers (LK<L>::of), or, for std::string labels only, `?<hex>`: the bytes themselves
+template <class L> struct LabTok {
+    static bool parse(const std::string &t, L &out) { long long l; if (!pl(t, l)) return false; out = LK<L>::of(l); return true; }
+};
+template <> struct LabTok<std::string> {
+    static bool parse(const std::string &t, std::string &out) {
+        if (!t.empty() && t[0] == '?') return fromHex(t.substr(1), out);
+        long long l; if (!pl(t, l)) return false; out = LK<std::string>::of(l); return true;
+    }
+};
 template <class L, bool UND> struct GrSlot;
 template <class L, bool UND> static SlotBase *roundtripImpl(const GrSlot<L, UND> &self, bool text, std::string &out);
 
@@ -199,10 +210,10 @@ template <class L, bool UND> struct GrSlot : SlotBase {
     template <bool U = UND> typename std::enable_if<!U>::type dumpObs(std::ostream &o) { dumpDirObs(o, g); }
 
     template <bool U = UND> typename std::enable_if<!U, bool>::type recip(const Args &a, std::string &out) {
-        VertexIndex i, j; long long l; bool f;
-        if (a.size() != 4 || !pv(a[0], i) || !pv(a[1], j) || !pl(a[2], l) || !pf(a[3], f)) return false;
+        VertexIndex i, j; L lab; bool f;
+        if (a.size() != 4 || !pv(a[0], i) || !pv(a[1], j) || !LabTok<L>::parse(a[2], lab) || !pf(a[3], f)) return false;
         out = guard([&] {
-            if (LK<L>::labelled) g.addReciprocalEdge(i, j, LK<L>::of(l), f);
+            if (LK<L>::labelled) g.addReciprocalEdge(i, j, lab, f);
             else g.addReciprocalEdge(i, j, f);
             return std::string("ok");
         });
@@ -211,16 +222,16 @@ template <class L, bool UND> struct GrSlot : SlotBase {
     template <bool U = UND> typename std::enable_if<U, bool>::type recip(const Args &, std::string &) { return false; }
 
     bool mutate(const std::string &verb, const Args &a, std::string &out) override {
-        VertexIndex i, j; long long l; bool f; size_t n;
+        VertexIndex i, j; L lab; bool f; size_t n;
         if (verb == "resize") {
             if (a.size() != 1 || !ps(a[0], n)) return false;
             out = guard([&] { g.resize(n); return std::string("ok"); });
             return true;
         }
         if (verb == "addEdge") {
-            if (a.size() != 4 || !pv(a[0], i) || !pv(a[1], j) || !pl(a[2], l) || !pf(a[3], f)) return false;
+            if (a.size() != 4 || !pv(a[0], i) || !pv(a[1], j) || !LabTok<L>::parse(a[2], lab) || !pf(a[3], f)) return false;
             out = guard([&] {
-                if (LK<L>::labelled) g.addEdge(i, j, LK<L>::of(l), f);
+                if (LK<L>::labelled) g.addEdge(i, j, lab, f);
                 else g.addEdge(i, j, f);
                 return std::string("ok");
             });
@@ -228,8 +239,8 @@ template <class L, bool UND> struct GrSlot : SlotBase {
         }
         if (verb == "addReciprocalEdge") return recip(a, out);
         if (verb == "setEdgeLabel") {
-            if (a.size() != 4 || !pv(a[0], i) || !pv(a[1], j) || !pl(a[2], l) || !pf(a[3], f)) return false;
-            out = guard([&] { g.setEdgeLabel(i, j, LK<L>::of(l), f); return std::string("ok"); });
+            if (a.size() != 4 || !pv(a[0], i) || !pv(a[1], j) || !LabTok<L>::parse(a[2], lab) || !pf(a[3], f)) return false;
+            out = guard([&] { g.setEdgeLabel(i, j, lab, f); return std::string("ok"); });
             return true;
         }
         if (verb == "removeEdge") {
@@ -262,7 +273,7 @@ template <class L, bool UND> struct GrSlot : SlotBase {
     bool query(const std::string &name, const Args &a, std::string &out) override {
         VertexIndex i, j; long long l; bool t;
         if (name == "hasEdge" && a.size() == 2 && pv(a[0], i) && pv(a[1], j)) { out = guard([&] { return std::string(g.hasEdge(i, j) ? "1" : "0"); }); return true; }
-        if (name == "hasEdgeL" && a.size() == 3 && pv(a[0], i) && pv(a[1], j) && pl(a[2], l)) { out = guard([&] { return std::string(g.hasEdge(i, j, LK<L>::of(l)) ? "1" : "0"); }); return true; }
+        { L lab; if (name == "hasEdgeL" && a.size() == 3 && pv(a[0], i) && pv(a[1], j) && LabTok<L>::parse(a[2], lab)) { out = guard([&] { return std::string(g.hasEdge(i, j, lab) ? "1" : "0"); }); return true; } }
         if (name == "getEdgeLabel" && a.size() == 3 && pv(a[0], i) && pv(a[1], j) && pf(a[2], t)) { out = guard([&] { return LK<L>::show(g.getEdgeLabel(i, j, t)); }); return true; }
         if (name == "getOutNeighbours" && a.size() == 1 && pv(a[0], i)) { out = guard([&] { return joinSeq(g.getOutNeighbours(i)); }); return true; }
         return degQ(name, a, out);
